@@ -522,7 +522,8 @@ func (c *Ctx) copiesFrom(v ssa.Value, call *ssa.Call) bool {
 	return okCopy
 }
 
-// errorReturned: the call's error result is tested != nil and the true branch returns a non-nil error.
+// errorReturned: the call's error result is tested != nil and every path of the true branch returns a non-nil error
+// before it can rejoin the nil path; or the error is returned directly.
 func (c *Ctx) errorReturned(call *ssa.Call) bool {
 	var errv ssa.Value = call
 	if call.Call.Signature().Results().Len() > 1 {
@@ -537,22 +538,56 @@ func (c *Ctx) errorReturned(call *ssa.Call) bool {
 		return false
 	}
 	for _, r := range *errv.Referrers() {
-		if b, ok := r.(*ssa.BinOp); ok && b.Op == token.NEQ {
+		if b, ok := r.(*ssa.BinOp); ok && b.Op == token.NEQ && (isNilConst(b.X) || isNilConst(b.Y)) {
 			for _, rr := range *b.Referrers() {
 				if iff, ok := rr.(*ssa.If); ok {
-					for _, in := range iff.Block().Succs[0].Instrs {
-						if ret, ok := in.(*ssa.Return); ok && !isNilConst(ret.Results[len(ret.Results)-1]) {
-							return true
-						}
+					if allPathsReturnError(iff.Block().Succs[0], iff.Block().Succs[1]) {
+						return true
 					}
 				}
 			}
 		}
 		if ret, ok := r.(*ssa.Return); ok && ret.Results[len(ret.Results)-1] == errv {
-			return true
+			// `return x, err` without a test: fine when it is not itself conditional on something else than err
+			if len(ret.Block().Preds) == 0 || ret.Block() == call.Block() || ret.Block().Idom() == call.Block() && len(call.Block().Succs) < 2 {
+				return true
+			}
 		}
 	}
 	return false
+}
+
+// allPathsReturnError: every path from b ends in a Return whose last result is not the nil constant, without reaching `join`.
+func allPathsReturnError(b, join *ssa.BasicBlock) bool {
+	seen := map[*ssa.BasicBlock]bool{}
+	var walk func(x *ssa.BasicBlock, d int) bool
+	walk = func(x *ssa.BasicBlock, d int) bool {
+		if x == join || d > 12 {
+			return false
+		}
+		if seen[x] {
+			return true
+		}
+		seen[x] = true
+		for _, in := range x.Instrs {
+			switch t := in.(type) {
+			case *ssa.Return:
+				return len(t.Results) > 0 && !isNilConst(t.Results[len(t.Results)-1])
+			case *ssa.Panic:
+				return true
+			}
+		}
+		if len(x.Succs) == 0 {
+			return false
+		}
+		for _, s := range x.Succs {
+			if !walk(s, d+1) {
+				return false
+			}
+		}
+		return true
+	}
+	return walk(b, 0)
 }
 
 // ---------------------------------------------------------------------------
